@@ -8,13 +8,27 @@ From TxV Require Import Core.Base Model.RepoDefs Gen.SrcRepo Model.Repo Proofs.R
 
 (* Every top-level load, for every file system and import graph, finishes within its fuel
    |files|+1 (the fuel bound is proved, not assumed) and opens no file twice - whether the load
-   succeeds or fails.  Hypothesis: the files cached from earlier loads are distinct existing files. *)
+   succeeds or fails.  Only hypothesis: all_models has no duplicate keys (it may hold models of files that
+   no longer exist and the invented names of string-loaded models; fk counts the registered files only). *)
 Theorem C17_loaded_once : forall fs c f s,
   NoDup (map fst (allm (begin_op c s))) ->
-  (forall k, In k (map fst (allm (begin_op c s))) -> k < length fs) ->
   fst (load_main fs c f s) <> inl EFuel /\ NoDup (reads (snd (load_main fs c f s))).
-Proof. intros fs c f s H1 H2. apply load_main_once. split; assumption. Qed.
+Proof. exact load_main_once. Qed.
 Print Assumptions C17_loaded_once.
+
+(* the same for a main model loaded from a string, and without any hypothesis at every point of every history *)
+Theorem C17_loaded_once_string_main : forall fs c fc s,
+  NoDup (map fst (allm (begin_op c s))) ->
+  fst (load_str fs c fc s) <> inl EFuel /\ NoDup (reads (snd (load_str fs c fc s))).
+Proof. exact load_str_once. Qed.
+Print Assumptions C17_loaded_once_string_main.
+
+Theorem C17_loaded_once_in_every_history : forall c builtins fs0 ops,
+  let s := run_hist c fs0 (init_state builtins) ops in
+  (forall fs f, fst (load_main fs c f s) <> inl EFuel /\ NoDup (reads (snd (load_main fs c f s)))) /\
+  (forall fs fc, fst (load_str fs c fc s) <> inl EFuel /\ NoDup (reads (snd (load_str fs c fc s)))).
+Proof. exact once_in_history. Qed.
+Print Assumptions C17_loaded_once_in_every_history.
 
 (* non-vacuity: a 3-cycle with a self import and a diamond edge loads fine, each file read once *)
 Example C17_loaded_once_witness :
@@ -104,6 +118,15 @@ Theorem C17_identity : forall c builtins fs0 ops fs f m s' x n t i,
   exists fc, cont_of t s' = Some fc /\ nth_error (felems fc) i = Some n.
 Proof. exact identity_in_history. Qed.
 Print Assumptions C17_identity.
+
+(* the same for a main model loaded from a string (registered under an invented name by the GlobalRepo providers);
+   histories (run_hist) contain file loads, string loads and rewrites *)
+Theorem C17_identity_string_main : forall c builtins fs0 ops fs fc m s' x n t i,
+  let s := run_hist c fs0 (init_state builtins) ops in
+  load_str fs c fc s = (inr m, s') -> In x (included m s') -> resolve_name c s' x n = Some (t, i) ->
+  t = x \/ In t (cbuiltins c) \/ dget (file_of t s') (allm s') = Some t.
+Proof. exact identity_in_history_str. Qed.
+Print Assumptions C17_identity_string_main.
 
 (* the same for any well-formed state whose registered models' local models are registered *)
 Theorem C17_identity_any_state : forall fs c f s m s' x n t i,
